@@ -77,8 +77,15 @@ def run(chk: common.Check):
     specs = _specs(chk)
 
     cases, all_obs, disagreements = [], [], []
+    timeouts = 0
     for spec in specs:
+        if timeouts >= 3:
+            # schedule() keeps running into the call timeout: the violation is established,
+            # do not spend the budget on more of the same
+            chk.extra["stopped_after_call_timeouts"] = timeouts
+            break
         lean_case, obs, failures = cw.run_spec(spec)
+        timeouts += sum(1 for o in obs if o["err"] == "ScheduleTimeout")
         cases.append(lean_case)
         all_obs.append(obs)
         chk.traces_validated += len(obs)
@@ -111,6 +118,8 @@ def run(chk: common.Check):
 
     if replies is not None:
         for spec, obs, reply in zip(specs, all_obs, replies):
+            if any(o["err"] == "ScheduleTimeout" for o in obs):
+                continue  # reported by the oracle; nothing to compare
             d = _diff(obs, reply)
             if d is not None:
                 disagreements.append((spec, d))
@@ -129,17 +138,24 @@ def run(chk: common.Check):
         def search():
             # shrunk variants of the disagreeing histories, then a widened generator run,
             # through the oracle on the real code alone
+            nto = 0
             for spec, _ in disagreements[:20]:
                 for v in gen.shrink_variants(spec):
+                    if nto >= 3:
+                        return
                     try:
-                        _, _, fl = cw.run_spec(v)
+                        _, ob, fl = cw.run_spec(v)
                     except Exception:  # a shrunk variant may be malformed
                         continue
+                    nto += sum(1 for o in ob if o["err"] == "ScheduleTimeout")
                     _report_failures(chk, v, fl)
             r = common.Rng(chk.seed, "c15/widened")
             for i in range(3000):
+                if nto >= 3:
+                    return
                 v = gen.gen_spec(r, ("small", "normal", "large")[i % 3])
-                _, _, fl = cw.run_spec(v)
+                _, ob, fl = cw.run_spec(v)
+                nto += sum(1 for o in ob if o["err"] == "ScheduleTimeout")
                 _report_failures(chk, v, fl)
 
         before = len(chk.violations)
@@ -183,7 +199,7 @@ def replay(path) -> int:
         print(f"[C15] replay {path}: no input recorded ({data.get('broken')})")
         return 1
     if data.get("found_input", True):
-        _, obs, failures = cw.run_spec(spec, capture=False)
+        _, obs, failures = cw.run_spec(spec)
         want = data.get("clause")
         hits = [f for f in failures if want is None or f[1] == want]
         for k, clause, detail in hits[:5]:
